@@ -280,3 +280,56 @@ func VH_C12_stmsi() {
 	g3, _, err := mid.Get5GSTMSI()
 	vrt.Assert(err == nil && g3 == got, "MobileIdentity5GS.Get5GSTMSI renders the same text when called again")
 }
+
+// The wrappers without an error result are the same conversions: on every input they return what the
+// error-returning variant returns, or the documented empty result when that variant reports an error.
+func VH_C12_wrappers() {
+	switch vrt.Choose("which", 0, 4) {
+	case 0:
+		n := vrt.Choose("n", 18, 21)
+		s := vrt.Str("s", n)
+		want, err := GutiToNasWithError(s)
+		got := GutiToNas(s)
+		if err != nil {
+			vrt.Assert(got == (nasType.GUTI5G{Len: 11}), "GutiToNas returns the empty identity when GutiToNasWithError reports an error")
+		} else {
+			vrt.Assert(got == want, "GutiToNas returns what GutiToNasWithError returns")
+		}
+	case 1:
+		buf := vrt.Bytes("b", vrt.Choose("n", 10, 12))
+		wg, wt, err := GutiToStringWithError(buf)
+		gg, gt := GutiToString(buf)
+		if err != nil {
+			vrt.Assert(gt == "" && gg.AmfId == "" && gg.PlmnId == nil, "GutiToString returns the empty result on error")
+		} else {
+			vrt.Assert(gt == wt && gg.AmfId == wg.AmfId && gg.PlmnId != nil && wg.PlmnId != nil && *gg.PlmnId == *wg.PlmnId, "GutiToString returns what GutiToStringWithError returns")
+		}
+	case 2:
+		buf := vrt.Bytes("b", vrt.Choose("n", 7, 10))
+		ws, wp, err := SuciToStringWithError(buf)
+		gs, gp := SuciToString(buf)
+		if err != nil {
+			vrt.Assert(gs == "" && gp == "", "SuciToString returns empty strings on error")
+		} else {
+			vrt.Assert(gs == ws && gp == wp, "SuciToString returns what SuciToStringWithError returns")
+		}
+	case 3:
+		buf := vrt.Bytes("b", vrt.Choose("n", 0, 4)) // the empty contents are the only error case
+		w, err := PeiToStringWithError(buf)
+		g := PeiToString(buf)
+		if err != nil {
+			vrt.Assert(g == "", "PeiToString returns the empty string on error")
+		} else {
+			vrt.Assert(g == w, "PeiToString returns what PeiToStringWithError returns")
+		}
+	case 4:
+		s := vrt.Str("s", vrt.Choose("n", 5, 7))
+		r, st, p, err := AmfIdToNasWithError(s)
+		gr, gs, gp := AmfIdToNas(s)
+		if err != nil {
+			vrt.Assert(gr == 0 && gs == 0 && gp == 0, "AmfIdToNas returns zeros on error")
+		} else {
+			vrt.Assert(gr == r && gs == st && gp == p, "AmfIdToNas returns what AmfIdToNasWithError returns")
+		}
+	}
+}
